@@ -430,3 +430,48 @@ def compare(rec):
     if not err and c.get("stdout") != expected_stdout(rec):
         dis.append(("stdout", "model %r impl %r" % (expected_stdout(rec), c.get("stdout"))))
     return dis
+
+
+# ---------------------------------------------------------------- reporting helper
+
+def check_progs(chk, progs, tag, rng, aspects=None, styles=("direct", "func", "arrparam", "method"), extra=None):
+    """Run programs on model and implementation; report disagreements (restricted to `aspects` when given).
+    extra(rec) -> list of (aspect, detail) statement-level findings computed from the implementation alone."""
+    res = run_progs(progs, rng, tag, styles)
+    n_dis = 0
+    for r in res:
+        d = compare(r)
+        if aspects is not None:
+            d = [x for x in d if x[0] in aspects or x[0] in ("crash", "unexpected-error", "no-state", "error-expected")]
+        if extra:
+            d = d + list(extra(r))
+        if not d:
+            continue
+        n_dis += 1
+        payload = {"source": r["src"], "model_line": r["prog"].model_line(), "draws": r["prog"].draws[:12], "disagreements": d,
+                   "impl": {k: v for k, v in r["impl"].items() if k in ("status", "cat", "line", "col", "msg", "stdout", "sim_meas", "ev_meas", "free", "last", "nq", "tracked", "draws")},
+                   "model": {k: v for k, v in r["model"].items() if k in ("nq", "meas", "ev", "free", "last", "env", "trace")},
+                   "how": "save source as p.bloch; echo 'run p.bloch draws=<draws comma separated>' > cases; build/drivers/hooked/drv_prog cases"}
+        chk.report("%s-%s" % (tag, d[0][0]), payload, "%s: %s" % (d[0][0], d[0][1][:140]))
+    if res:
+        chk.sample({"program": res[0]["src"], "model_line": res[0]["prog"].model_line()})
+        chk.sample({"program": res[-1]["src"], "model_line": res[-1]["prog"].model_line()})
+    return res, n_dis
+
+
+def impl_state_sane(rec, tol=1e-9):
+    """statement-level check on the implementation's final state alone: 2^n finite amplitudes, unit norm"""
+    c = rec["impl"]
+    out = []
+    if "amps" not in c:
+        return out
+    a = c["amps"]
+    if len(a) != 2 ** c["nq"]:
+        out.append(("state-size", "%d amplitudes for %d qubits" % (len(a), c["nq"])))
+    if any(not isinstance(x, list) for x in a):
+        out.append(("state-nonfinite", "non-finite amplitude"))
+    else:
+        n = sum(x[0] * x[0] + x[1] * x[1] for x in a)
+        if abs(n - 1) > tol:
+            out.append(("state-norm", "norm^2 = %.12g" % n))
+    return out
